@@ -9,13 +9,16 @@ clock()/propagate() is executed symbolically (E1) from a symbolic state -> step_
 searches a state and inputs inside the stated value domain with different outputs or next
 state.  Initial values are compared as well, so one step covers every input sequence.
 """
+import ast
 import importlib
+import inspect
 import io
 import os
 import random
 import shutil
 import sys
 import textwrap
+import types
 
 import z3
 
@@ -250,6 +253,36 @@ def state_attrs(obj):
     return {k: v for k, v in obj.__dict__.items() if isinstance(v, int) and not isinstance(v, bool)}
 
 
+class _WrapLiterals(ast.NodeTransformer):
+    """int literal n -> _K_(n) (a point-interval symbol), so that arithmetic between constants is seen by the
+    value-domain listener as well; match patterns stay literal"""
+    def visit_Constant(self, node):
+        if isinstance(node.value, int) and not isinstance(node.value, bool):
+            return ast.copy_location(ast.Call(ast.Name('_K_', ast.Load()), [node], []), node)
+        return node
+
+    def visit_match_case(self, node):
+        if node.guard is not None:
+            node.guard = self.visit(node.guard)
+        node.body = [self.visit(b) for b in node.body]
+        return node
+
+
+def _K(n):
+    return core.mk(z3.BitVecVal(n, core.sbits(n, n)), n, n)
+
+
+def wrap_literals(obj, kind):
+    """the bound method `kind` of obj, recompiled from its own source with literals wrapped"""
+    fn = getattr(type(obj), kind)
+    tree = ast.parse(textwrap.dedent(inspect.getsource(fn)))
+    tree = ast.fix_missing_locations(_WrapLiterals().visit(tree))
+    ns = dict(fn.__globals__)
+    ns['_K_'] = _K
+    exec(compile(tree, '<%s.%s with wrapped literals>' % (type(obj).__name__, kind), 'exec'), ns)
+    return types.MethodType(ns[fn.__name__], obj)
+
+
 def behav_task(p, cfg, rec):
     mk = cfg['mk']
     refusal = cfg.get('refusal', False)
@@ -314,11 +347,14 @@ def behav_task(p, cfg, rec):
         sim = s.getSimulator()
     allv = {}
     V = {}
+    in_dom = []
     for n, w in ins.items():
         x, v = core.fresh('i_' + n, w.getWidth())
         w.put(x)
         V[n] = v
         allv['in:' + n] = v
+        if w.getWidth() >= 32:
+            in_dom.append(z3.ULT(v, z3.BitVecVal(1 << 31, v.size())))      # an input value is a Python value too
     vstate = {}
     for vn, (k, x) in corr.items():
         if k == 'wire':
@@ -347,7 +383,15 @@ def behav_task(p, cfg, rec):
         c = z3.And(core.as_z3_bool(r >= 0), core.as_z3_bool(r < (1 << 31)))
         dom.append(z3.Implies(z3.And(*pc), c) if pc else c)
     ctx.listeners.append(listen)
+    ctx.keep_symbolic = True
     try:
+        # constants take part in the value domain too: literals and constant attributes become point symbols
+        shell = obj.__dict__.get(kind)
+        if isinstance(shell, symsim.LeafShell):
+            shell.orig = wrap_literals(obj, kind)
+        for an, av in attrs.items():
+            if an not in corr:
+                setattr(obj, an, _K(av))
         with quiet():
             if kind == 'clock':
                 sim.clk(1)
@@ -355,6 +399,7 @@ def behav_task(p, cfg, rec):
                 sim.propagateAll()
     finally:
         ctx.listeners.remove(listen)
+        ctx.keep_symbolic = False
     post = {}
     for vn, (k, x) in corr.items():
         post[vn] = x.value if k == 'wire' else getattr(obj, vn)
@@ -371,6 +416,8 @@ def behav_task(p, cfg, rec):
         return
     for g in vs.div_guards:
         dom.append(g)
+    dom.extend(in_dom)
+    dom.extend(vs.width_guards)        # the domain Verilog gives each intermediate: + - * << do not wrap at their context width
     # stored values stay below 2**31
     for vn, (k, x) in corr.items():
         if k == 'attr':
@@ -471,7 +518,7 @@ def main(argv=None):
         return common.run_check(
             PROP, 'translation_validation', tasks, args, design_ref='DESIGN.md section 3 (C02)',
             technique='SMT equivalence checking (z3 QF_BV): transpiled always-block module (E2) versus symbolic execution of the real Python clock()/propagate() from a symbolic state; initial values compared; one inductive step covers all input sequences',
-            assumptions=['value domain: every intermediate Python value is >= 0 and < 2**31 (a Verilog integer is a signed 32-bit variable, so arithmetic between integers is signed)', 'divisors non-zero',
+            assumptions=['value domain: every intermediate Python value (inputs, constants and results alike) is >= 0 and < 2**31 (a Verilog integer is a signed 32-bit variable, so arithmetic between integers is signed), and no + - * << of the emitted text wraps at the width IEEE 1364 gives that expression on the executed path (e.g. a 1-bit plus a 4-bit port inside an if condition is a 4-bit sum)', 'divisors non-zero',
                          'text that does not parse/elaborate is a C03 matter (a downstream tool refuses it, so it is not silent) and is listed as inconclusive here'],
             bounds={'programs': 'library behavioural blocks + %d grammar-generated programs (if/elif/else, match/case, ternary, and/or/not, comparisons, + - * // %% & | ^ ~ << >>, locals, state, constants) + %d single-construct refusal probes'
                     % (150 if args.tier == 'quick' else 1500, len(UNSUPPORTED)), 'widths': '1,4,8,32'},
